@@ -632,10 +632,11 @@ func runRecoverReplay(c *Ctx, r *RuleRun) {
 		{setFn, "every entry is set in the memtable", "an entry read from an old wal is not put into the memtable on some path: it is in the new wal only, reads miss it, and a clean Close (empty memtable) removes that wal too"},
 		{walWrite, "every entry is written to the new wal", "an entry read from an old wal is not written to the new wal on some path although the old wal is then deleted"},
 	} {
-		isIt := func(i ssa.Instruction) bool {
+		direct := func(i ssa.Instruction) bool {
 			cl, ok := i.(*ssa.Call)
 			return ok && cl.Call.StaticCallee() == want.g
 		}
+		isIt := NewMustDo(p, direct).Instr // also through a helper that always does it
 		q := PathQuery{P: p, Fn: rec, Starts: []ssa.Instruction{entryLoop.header.Instrs[len(entryLoop.header.Instrs)-1]},
 			EdgeOK: func(bb *ssa.BasicBlock, i int) bool { return bb != entryLoop.header || bb.Succs[i] == body },
 			Avoid:  isIt, Target: func(i ssa.Instruction) bool { return i.Block() == entryLoop.header && instrIndex(i) == 0 }}
